@@ -45,6 +45,18 @@ def judge_default(st, data, status, payload, source, replay):
         else:
             alt = None
     if alt is None and not ref.in_domain and ref.error is None:
+        ref2 = xref.tokenize(data[:-1]) if ref.trailing_backslash else None
+        if ref2 is not None and ref2.in_domain and ref2.error is None and status == "ok":
+            # what a backslash at the very end of the input quotes is not stated (dropped, or kept as a character); that nothing
+            # appears which is not in the input is: no empty argument may come out of it
+            st.inc("inputs_ending_in_a_backslash_checked_for_spurious_arguments")
+            got = parse_tokens(payload)
+            base = [t_ for t_, _ in ref2.tokens]
+            ok = [t_ for t_, _ in got] in (base, base + [b"\\"], base[:-1] + [base[-1] + b"\\"] if base and not data[:-1].endswith((b" ", b"\t", b"\n")) else base)
+            if not ok:
+                st.violate("spurious-empty-argument" if any(t_ == b"" for t_, _ in got) else "tokens-differ", None,
+                           {"input": data, "observed": got, "reference_without_the_backslash": ref2.tokens, "source": source}, replay)
+            return
         st.inc("out_of_domain(empty-quoted-token|newline-in-quote|trailing-backslash)")
         return
     if ref.error:
@@ -253,12 +265,27 @@ DELIM_SPELLINGS = [(7, "\\a"), (8, "\\b"), (12, "\\f"), (10, "\\n"), (13, "\\r")
                    (0x7f, "\\x7f"), (0xe9, "\\xe9")]
 
 
+BAD_DELIMS = ["é", "€", "àb", "ab", "", "日", "\\", "\\q", "\\x", "\\xZZ", "\\0999", "\u00a0"]
+
+
 def binary_worker(job):
     k, nruns, seed, base = job
     st = Stats()
     rng = common.rng_for(seed, "C05b", k)
     wd = os.path.join(base, "b%d" % k)
     os.makedirs(wd)
+    if k == 0:
+        # -d takes one BYTE (literal or escaped): anything else - in particular one multi-byte character - is refused, never
+        # quietly reduced to one of its bytes
+        for bad in BAD_DELIMS:
+            for form in (["-d", bad], ["--delimiter=" + bad]):
+                r = xref.run_xargs(wd, form, [], "aébàc€d\n".encode())
+                st.inc("evaluations")
+                st.inc("invalid_delimiter_operands")
+                if r.rc != 1 or r.invocations or not r.err.strip():
+                    st.violate("delimited-tokens-differ", None, {"options": form, "problem": "not refused: exit %r, %d invocations" % (r.rc, len(r.invocations)),
+                                                                 "observed_args": [a for _, argv in r.invocations for a in argv][:6], "stderr": r.err[-160:]},
+                               {"options": form})
     for i in range(nruns):
         mode = rng.choice([-1, -1, 0, ord(","), "spelled"])
         if mode == "spelled":
